@@ -195,4 +195,299 @@ theorem areaReduce_range (area A : ℚ) (c : ℤ) (rv sg : Bool) (hA : 0 < A) :
   constructor <;> intro hs <;> subst hs <;> simp only [if_true, if_false, Bool.false_eq_true] <;>
     split_ifs <;> constructor <;> first | linarith | (push Not at *; linarith) | nlinarith
 
+/-! ### AreaReduce modulo `A`: the master lemma, `reverse` flip, traversal flip -/
+
+/-- congruence modulo the ellipsoid area -/
+def CongA (A x y : ℚ) : Prop := ∃ m : ℤ, x = y + m * A
+
+theorem CongA.refl (A x : ℚ) : CongA A x x := ⟨0, by simp⟩
+theorem CongA.symm {A x y : ℚ} (h : CongA A x y) : CongA A y x := by
+  obtain ⟨m, hm⟩ := h; exact ⟨-m, by rw [hm]; push_cast; ring⟩
+theorem CongA.trans {A x y z : ℚ} (h1 : CongA A x y) (h2 : CongA A y z) : CongA A x z := by
+  obtain ⟨m, hm⟩ := h1; obtain ⟨n, hn⟩ := h2; exact ⟨m + n, by rw [hm, hn]; push_cast; ring⟩
+theorem CongA.neg {A x y : ℚ} (h : CongA A x y) : CongA A (-x) (-y) := by
+  obtain ⟨m, hm⟩ := h; exact ⟨-m, by rw [hm]; push_cast; ring⟩
+theorem CongA.add {A x y u v : ℚ} (h1 : CongA A x y) (h2 : CongA A u v) : CongA A (x + u) (y + v) := by
+  obtain ⟨m, hm⟩ := h1; obtain ⟨n, hn⟩ := h2; exact ⟨m + n, by rw [hm, hn]; push_cast; ring⟩
+
+theorem remainderQ_cong (x A : ℚ) : CongA A (remainderQ x A) x := by
+  unfold remainderQ
+  simp only []
+  generalize (if x / A - ↑(x / A).floor < 1 / 2 then (x / A).floor else if x / A - ↑(x / A).floor > 1 / 2 then (x / A).floor + 1 else (if (x / A).floor % 2 = 0 then (x / A).floor else (x / A).floor + 1)) = n
+  exact ⟨-n, by push_cast; ring⟩
+
+/-- the stages of `areaReduce` after the remainder -/
+def adjC (A : ℚ) (c : ℤ) (a : ℚ) : ℚ := if c % 2 = 1 then a + (if a < 0 then 1 else -1) * (A / 2) else a
+def orient (rv : Bool) (a : ℚ) : ℚ := if !rv then -a else a
+def window (A : ℚ) (sg : Bool) (a : ℚ) : ℚ :=
+  if sg then (if a > A / 2 then a - A else if a ≤ -(A / 2) then a + A else a)
+  else (if a ≥ A then a - A else if a < 0 then a + A else a)
+
+theorem areaReduce_stages (area A : ℚ) (c : ℤ) (rv sg : Bool) :
+    areaReduce area A c rv sg = window A sg (orient rv (adjC A c (remainderQ area A))) := rfl
+
+/-- the signed multiplier of `reverse` -/
+def sgn (rv : Bool) : ℚ := if rv then 1 else -1
+
+theorem adjC_cong (A : ℚ) (c : ℤ) (a : ℚ) : CongA A (adjC A c a) (a + c * (A / 2)) := by
+  unfold adjC
+  rcases Int.emod_two_eq_zero_or_one c with hc | hc
+  · obtain ⟨j, hj⟩ : ∃ j, c = 2 * j := ⟨c / 2, by omega⟩
+    rw [if_neg (by omega)]
+    refine ⟨-j, ?_⟩
+    rw [hj]; push_cast; ring
+  · obtain ⟨j, hj⟩ : ∃ j, c = 2 * j + 1 := ⟨c / 2, by omega⟩
+    rw [if_pos hc]
+    split_ifs
+    · refine ⟨-j, ?_⟩
+      rw [hj]; push_cast; ring
+    · refine ⟨-j - 1, ?_⟩
+      rw [hj]; push_cast; ring
+
+theorem orient_eq (rv : Bool) (a : ℚ) : orient rv a = sgn rv * a := by
+  cases rv <;> simp [orient, sgn]
+
+theorem window_cong (A : ℚ) (sg : Bool) (a : ℚ) : CongA A (window A sg a) a := by
+  unfold window
+  split_ifs
+  · exact ⟨-1, by push_cast; ring⟩
+  · exact ⟨1, by push_cast; ring⟩
+  · exact CongA.refl _ _
+  · exact ⟨-1, by push_cast; ring⟩
+  · exact ⟨1, by push_cast; ring⟩
+  · exact CongA.refl _ _
+
+theorem CongA.mul_sgn {A x y : ℚ} (rv : Bool) (h : CongA A x y) : CongA A (sgn rv * x) (sgn rv * y) := by
+  cases rv
+  · simpa [sgn] using h.neg
+  · simpa [sgn] using h
+
+/-- **what `AreaReduce` computes, modulo `A`**: `± (area + crossings·A/2)` -/
+theorem areaReduce_cong (area A : ℚ) (c : ℤ) (rv sg : Bool) :
+    CongA A (areaReduce area A c rv sg) (sgn rv * (area + c * (A / 2))) := by
+  rw [areaReduce_stages, ]
+  refine (window_cong A sg _).trans ?_
+  rw [orient_eq]
+  refine CongA.mul_sgn rv ?_
+  refine (adjC_cong A c _).trans ?_
+  exact (remainderQ_cong area A).add (CongA.refl _ _)
+
+
+theorem cong_eq_of_abs_lt {A x y : ℚ} (hA : 0 < A) (h : CongA A x y) (hlt : |x - y| < A) : x = y := by
+  obtain ⟨m, hm⟩ := h
+  rw [abs_lt] at hlt
+  have h1 : (m:ℚ) * A < A := by linarith
+  have h2 : -A < (m:ℚ) * A := by linarith
+  have h3 : (m:ℚ) < 1 := by by_contra hh; push Not at hh; nlinarith
+  have h4 : (-1:ℚ) < m := by by_contra hh; push Not at hh; nlinarith
+  have h5 : m < 1 := by exact_mod_cast h3
+  have h6 : -1 < m := by exact_mod_cast h4
+  have : m = 0 := by omega
+  subst this; simpa using hm
+
+/-- two results of `AreaReduce` with the same `sign` flag that are congruent modulo `A` are equal
+    (each range is a fundamental domain) -/
+theorem areaReduce_eq_of_cong_results {A : ℚ} (hA : 0 < A) {area area' : ℚ} {c c' : ℤ} {rv rv' sg : Bool}
+    (h : CongA A (areaReduce area' A c' rv' sg) (areaReduce area A c rv sg)) :
+    areaReduce area' A c' rv' sg = areaReduce area A c rv sg := by
+  apply cong_eq_of_abs_lt hA h
+  have r1 := areaReduce_range area A c rv sg hA
+  have r2 := areaReduce_range area' A c' rv' sg hA
+  rw [abs_lt]
+  cases sg
+  · have a := r1.2 rfl; have b := r2.2 rfl; constructor <;> linarith
+  · have a := r1.1 rfl; have b := r2.1 rfl; constructor <;> linarith
+
+/-- **master lemma**: the reduced area depends only on `± (area + crossings·A/2)` modulo `A` -/
+theorem areaReduce_eq_of_cong {A : ℚ} (hA : 0 < A) {area area' : ℚ} {c c' : ℤ} {rv rv' : Bool} (sg : Bool)
+    (h : CongA A (sgn rv' * (area' + c' * (A / 2))) (sgn rv * (area + c * (A / 2)))) :
+    areaReduce area' A c' rv' sg = areaReduce area A c rv sg :=
+  areaReduce_eq_of_cong_results hA
+    (((areaReduce_cong area' A c' rv' sg).trans h).trans (areaReduce_cong area A c rv sg).symm)
+
+theorem sgn_not (rv : Bool) : sgn (!rv) = - sgn rv := by cases rv <;> simp [sgn]
+
+/-- **flipping `reverse`**: signed result `a ↦ −a` (the end point `A/2` of the half-open range maps to itself);
+    unsigned result `a ↦ A − a` for `a ≠ 0`, `0 ↦ 0` -/
+theorem areaReduce_flip (area A : ℚ) (c : ℤ) (rv : Bool) (hA : 0 < A) :
+    (areaReduce area A c (!rv) true =
+        if areaReduce area A c rv true = A / 2 then A / 2 else - areaReduce area A c rv true) ∧
+    (areaReduce area A c (!rv) false =
+        if areaReduce area A c rv false = 0 then 0 else A - areaReduce area A c rv false) := by
+  have key : ∀ sg, CongA A (areaReduce area A c (!rv) sg) (-(areaReduce area A c rv sg)) := by
+    intro sg
+    refine (areaReduce_cong area A c (!rv) sg).trans ?_
+    rw [sgn_not, neg_mul]
+    exact (areaReduce_cong area A c rv sg).neg.symm
+  constructor
+  · have r1 := (areaReduce_range area A c rv true hA).1 rfl
+    have r2 := (areaReduce_range area A c (!rv) true hA).1 rfl
+    split_ifs with h
+    · apply cong_eq_of_abs_lt hA
+      · refine (key true).trans ?_
+        rw [h]; exact ⟨-1, by push_cast; ring⟩
+      · rw [abs_lt]; constructor <;> linarith
+    · apply cong_eq_of_abs_lt hA (key true)
+      have : areaReduce area A c rv true < A / 2 := lt_of_le_of_ne r1.2 h
+      rw [abs_lt]; constructor <;> linarith
+  · have r1 := (areaReduce_range area A c rv false hA).2 rfl
+    have r2 := (areaReduce_range area A c (!rv) false hA).2 rfl
+    split_ifs with h
+    · apply cong_eq_of_abs_lt hA
+      · have := key false; rw [h] at this; simpa using this
+      · rw [abs_lt]; constructor <;> linarith
+    · apply cong_eq_of_abs_lt hA
+      · exact (key false).trans ⟨-1, by push_cast; ring⟩
+      · have : 0 < areaReduce area A c rv false := lt_of_le_of_ne r1.1 (Ne.symm h)
+        rw [abs_lt]; constructor <;> linarith
+
+/-- **flipping the traversal order** (raw sum negated, crossing parity kept) is the same as flipping `reverse` -/
+theorem areaReduce_neg_area (area A : ℚ) (c c' : ℤ) (rv sg : Bool) (hA : 0 < A) (hc : c' % 2 = c % 2) :
+    areaReduce (-area) A c' rv sg = areaReduce area A c (!rv) sg := by
+  apply areaReduce_eq_of_cong hA
+  rw [sgn_not]
+  obtain ⟨j, hj⟩ : ∃ j, c' + c = 2 * j := ⟨(c' + c) / 2, by omega⟩
+  have hj' : (c' : ℚ) = 2 * j - c := by
+    have : ((c' + c : ℤ) : ℚ) = ((2 * j : ℤ) : ℚ) := by rw [hj]
+    push_cast at this; linarith
+  refine ⟨if rv then j else -j, ?_⟩
+  rw [hj']; cases rv <;> simp [sgn] <;> ring
+
+theorem Edge.reverse {d n1 n2 : ℚ} {k : ℤ} (e : Edge d n1 n2 k) : Edge (-d) n2 n1 (-k) :=
+  ⟨⟨by linarith [e.hd.2], by linarith [e.hd.1]⟩, e.hn2, e.hn1, by have := e.hk; push_cast; linarith⟩
+
+/-- the crossing count of an edge traversed backwards is the negative -/
+theorem transitQ_antisymm {d n1 n2 : ℚ} {k : ℤ} (e : Edge d n1 n2 k) :
+    transitQ (-d) n2 n1 = - transitQ d n1 n2 := by
+  rw [transit_eq_floor e, transit_eq_floor e.reverse]
+  have h1 : ⌊(n1 + d) / 360⌋ = ⌊n2 / 360⌋ + k := by
+    rw [e.hk, show (n2 + 360 * (k:ℚ)) / 360 = n2 / 360 + (k:ℚ) by ring, Int.floor_add_intCast]
+  have h2 : ⌊(n2 + -d) / 360⌋ = ⌊n1 / 360⌋ + (-k) := by
+    rw [e.reverse.hk, show (n1 + 360 * ((-k : ℤ):ℚ)) / 360 = n1 / 360 + ((-k : ℤ):ℚ) by ring, Int.floor_add_intCast]
+  rw [h1, h2]; ring
+
+/-! ### whole runs: `AddPoint* ; Compute` over a vertex list and a backend -/
+
+abbrev Vertex := F64 × F64
+/-- `(s12, S12)` of the inverse problem between two vertices -/
+abbrev Backend := Vertex → Vertex → ℚ × ℚ
+
+def step (B : Backend) (sp : State × Vertex) (q : Vertex) : State × Vertex :=
+  (addPoint sp.1 q.2 (B sp.2 q).1 (B sp.2 q).2, q)
+
+/-- `Clear(); AddPoint(v₀); …; AddPoint(vₙ₋₁); Compute(reverse, sign)` for a polygon (not polyline) -/
+def polygon (B : Backend) (A : ℚ) (rv sg : Bool) : List Vertex → Result
+  | [] => compute (init false) A rv sg 0 0
+  | v :: r =>
+    let sp := r.foldl (step B) (addPoint (init false) v.2 0 0, v)
+    compute sp.1 A rv sg (B sp.2 v).1 (B sp.2 v).2
+
+/-- sum of `f` over the consecutive pairs of the path `p, r₀, r₁, …` -/
+def path {α : Type} [AddCommMonoid α] (f : Vertex → Vertex → α) : Vertex → List Vertex → α
+  | _, [] => 0
+  | p, q :: r => f p q + path f q r
+
+/-- cyclic sum of `f` over the edges of the closed polygon -/
+def cyc {α : Type} [AddCommMonoid α] (f : Vertex → Vertex → α) : List Vertex → α
+  | [] => 0
+  | p :: r => path f p (r ++ [p])
+
+theorem path_append {α : Type} [AddCommMonoid α] (f : Vertex → Vertex → α) (p q : Vertex) (l m : List Vertex) :
+    path f p (l ++ q :: m) = path f p (l ++ [q]) + path f q m := by
+  induction l generalizing p with
+  | nil => simp [path]
+  | cons a l ih => simp only [List.cons_append, path, ih, add_assoc]
+
+theorem cyc_rotate_one {α : Type} [AddCommMonoid α] (f : Vertex → Vertex → α) (vs : List Vertex) :
+    cyc f (vs.rotate 1) = cyc f vs := by
+  match vs with
+  | [] => simp
+  | [p] => simp
+  | p :: q :: r =>
+    have : (p :: q :: r).rotate 1 = q :: (r ++ [p]) := by simp [List.rotate_cons_succ]
+    rw [this]
+    simp only [cyc, path, List.cons_append]
+    rw [show r ++ [p] ++ [q] = r ++ p :: [q] by simp, path_append]
+    simp only [path, add_zero]
+    exact add_comm _ _
+
+theorem cyc_rotate {α : Type} [AddCommMonoid α] (f : Vertex → Vertex → α) (vs : List Vertex) (n : ℕ) :
+    cyc f (vs.rotate n) = cyc f vs := by
+  induction n with
+  | zero => simp
+  | succ n ih => rw [← List.rotate_rotate, cyc_rotate_one, ih]
+
+def fS (B : Backend) (p q : Vertex) : ℚ := (B p q).2
+def fs (B : Backend) (p q : Vertex) : ℚ := (B p q).1
+def fT (p q : Vertex) : ℤ := transit p.2 q.2
+
+/-- last vertex of the path `p, r₀, r₁, …` -/
+def lastV : Vertex → List Vertex → Vertex
+  | p, [] => p
+  | _, q :: r => lastV q r
+
+theorem foldl_step (B : Backend) (r : List Vertex) (st : State) (p : Vertex) (hn : st.num ≠ 0) (hp : st.polyline = false)
+    (hl : st.lon1 = p.2) :
+    (r.foldl (step B) (st, p)).1.num = st.num + r.length ∧
+    (r.foldl (step B) (st, p)).1.perimsum = st.perimsum + path (fs B) p r ∧
+    (r.foldl (step B) (st, p)).1.areasum = st.areasum + path (fS B) p r ∧
+    (r.foldl (step B) (st, p)).1.crossings = st.crossings + path fT p r ∧
+    (r.foldl (step B) (st, p)).1.lon0 = st.lon0 ∧
+    (r.foldl (step B) (st, p)).1.lon1 = (lastV p r).2 ∧
+    (r.foldl (step B) (st, p)).1.polyline = false ∧
+    (r.foldl (step B) (st, p)).2 = lastV p r := by
+  induction r generalizing st p with
+  | nil => simp [path, hp, hl, lastV]
+  | cons q r ih =>
+    have hst : (step B (st, p) q) = (addPoint st q.2 (B p q).1 (B p q).2, q) := rfl
+    have ha : addPoint st q.2 (B p q).1 (B p q).2 =
+        { st with num := st.num + 1, perimsum := st.perimsum + (B p q).1, areasum := st.areasum + (B p q).2,
+                  crossings := st.crossings + transit p.2 q.2, lon1 := q.2 } := by
+      unfold addPoint; simp [hn, hp, hl]
+    simp only [List.foldl_cons, hst]
+    obtain ⟨h1, h2, h3, h4, h5, h6, h7, h8⟩ := ih (addPoint st q.2 (B p q).1 (B p q).2) q (by rw [ha]; simp) (by rw [ha]; exact hp)
+      (by rw [ha])
+    refine ⟨?_, ?_, ?_, ?_, ?_, ?_, h7, ?_⟩
+    · rw [h1, ha]; simp; omega
+    · rw [h2, ha]; simp [path, fs]; ring
+    · rw [h3, ha]; simp [path, fS]; ring
+    · rw [h4, ha]; simp [path, fT]; ring
+    · rw [h5, ha]
+    · rw [h6]; rfl
+    · rw [h8]; rfl
+
+
+theorem path_snoc {α : Type} [AddCommMonoid α] (f : Vertex → Vertex → α) (p x : Vertex) (r : List Vertex) :
+    path f p (r ++ [x]) = path f p r + f (lastV p r) x := by
+  induction r generalizing p with
+  | nil => simp [path, lastV]
+  | cons q r ih => simp only [List.cons_append, path, ih, lastV, add_assoc]
+
+/-- **closed form of a whole run**: vertex count, cyclic perimeter, and `AreaReduce` of the cyclic sums -/
+theorem polygon_eq (B : Backend) (A : ℚ) (rv sg : Bool) (vs : List Vertex) (h : 2 ≤ vs.length) :
+    polygon B A rv sg vs =
+      ⟨vs.length, some (cyc (fs B) vs), some (some (areaReduce (cyc (fS B) vs) A (cyc fT vs) rv sg))⟩ := by
+  match vs, h with
+  | v :: r, h =>
+    have h0 : addPoint (init false) v.2 0 0 = { (init false) with num := 1, lon0 := v.2, lon1 := v.2 } := by
+      simp [addPoint, init]
+    obtain ⟨h1, h2, h3, h4, h5, h6, h7, h8⟩ := foldl_step B r (addPoint (init false) v.2 0 0) v (by rw [h0]; simp) (by rw [h0]; rfl) (by rw [h0])
+    have hlen : ¬ ((r.foldl (step B) (addPoint (init false) v.2 0 0, v)).1.num < 2) := by
+      rw [h1, h0]; simp at h ⊢; omega
+    simp only [polygon, compute, hlen, if_false, h7, Bool.false_eq_true]
+    rw [h1, h2, h3, h4, h5, h6, h8, h0]
+    simp only [cyc, path_snoc, init]
+    simp [fs, fS, fT, Nat.add_comm]
+
+/-- **start independence**: the result of `Compute` does not depend on which vertex the polygon was started from -/
+theorem start_independent (B : Backend) (A : ℚ) (rv sg : Bool) (vs : List Vertex) (n : ℕ) :
+    polygon B A rv sg (vs.rotate n) = polygon B A rv sg vs := by
+  by_cases h : 2 ≤ vs.length
+  · rw [polygon_eq B A rv sg vs h, polygon_eq B A rv sg _ (by rw [List.length_rotate]; exact h)]
+    simp only [cyc_rotate, List.length_rotate]
+  · match vs, h with
+    | [], _ => simp
+    | [v], _ => simp
+    | _ :: _ :: _, h => simp at h
+
 end GeoVerif.Props.C08
